@@ -549,6 +549,12 @@ def _make_config(rng, prof, world):
     if prof.get("small_ids"):
         k = rng.randint(1, 3)
     labels = rng.sample(pool, k)
+    if merge and len(pool) == 7 and rng.random() < 0.6:
+        # make sure two entries really collapse onto one label (with their own thresholds / radii each)
+        pair = list(rng.choice([("car", "truck"), ("truck", "car"), ("car", "bus"), ("bus", "truck"), ("bicycle", "motorbike"), ("motorbike", "bicycle")]))
+        labels = pair + [l for l in labels if l not in pair][: max(0, k - 2)]
+        if rng.random() < 0.5:
+            rng.shuffle(labels)
     if "unknown" in labels and rng.random() < 0.7:
         labels.remove("unknown")
         if not labels:
